@@ -307,7 +307,8 @@ class Explorer:
         states that remaining quantified sub-formulas are meant as opaque atoms (they recur verbatim in the goal)."""
         if has_quantifier(fml) and not quantified_atoms:
             raise Unsupported("instance() of a quantified formula")
-        self.insts.append(fml)
+        if not any(fml.eq(x) for x in self.insts[-400:]):
+            self.insts.append(fml)
 
     def oblige(self, name, goal, note=""):
         self.obls.append(Obligation(name, self.axioms + self.pc, goal, note, insts=self.insts if self.insts else None))
